@@ -33,8 +33,12 @@ def check_config(cfg, w, rep):
     n_open = 0
     for p in R.index_inserts:
         lf = prog.fns[p]
-        for e in w.own_effects(lf):
-            if e.kind == "Open" and e.classes.get("path", ("?",))[0] == "Bucket":
+        from .fsrules import FsWorld
+        from ..provenance import shape as _shape
+        fw_ = FsWorld.get(w)
+        for e in w.reach_effects(lf):
+            on_bucket = e.classes.get("path", ("?",))[0] == "Bucket" or any(_shape(x) == "Bucket(Entry)" for x in fw_.expanded(e).get("path", ()))
+            if e.kind == "Open" and on_bucket:
                 n_open += 1
                 fl = {k: v for k, v in e.flags.items() if v}
                 if fl.get("append") is True and fl.get("create") is True and not fl.get("write") and not fl.get("truncate") \
@@ -58,6 +62,21 @@ def check_config(cfg, w, rep):
         else:
             rep.ob(cfg, "a-append-only", fn_key(lf) + ".always", "`%s` appends a record on every success path" % short(p))
 
+    # ---- (c) "absent after removal": a removal that reports success has made the key absent — key removals append the
+    #      tombstone, a full removal removes the bucket file on every success path (the removal clauses of C09, re-checked) ----
+    from ..framework import Report
+    from . import c09
+    sub = Report("C09")
+    c09.check_removal_effects(cfg, w, sub)
+    RM = ("lower-bound", "tombstone", "remove-fully-arms", "remove-fully-complete", "clear-all-children")
+    for (c_, rule, k, desc, ok) in sub.obligations:
+        if rule in RM and ok:
+            rep.ob(cfg, "c/" + rule, k, desc)
+    for k, v in sub.violations.items():
+        if v.rule in RM:
+            rep.violation("c:%s" % k, "a key could still be found after a successful removal — " + v.msg, loc=v.loc, config=cfg,
+                          rule="c/" + v.rule, witness=v.witness)
+
     # ---- (b) decision table of every lookup ----
     finds = sorted(find_fns(w))
     rep.floor("lookup_fns", len(finds), 2 if is_async else 1, cfg)
@@ -65,46 +84,88 @@ def check_config(cfg, w, rep):
         check_find(cfg, w, rep, prog.fns[p])
 
 
+def _reader_stream_ok(w, lf, term):
+    """`term` is (an into_iter of) the validated record stream of bucket_path(cache, key) of lookup `lf`, key unchanged."""
+    from ..symval import walk
+    R = w.roles
+    reader_call = None
+    for st in walk(term):
+        if st[0] == "call" and st[1] in R.bucket_readers:
+            reader_call = st
+    if reader_call is not None and reader_call[2]:
+        bp = reader_call[2][0]
+        if bp[0] == "call" and bp[1] in R.bucket_path and bp[2] == (("param", lf.path, 0, ()), ("param", lf.path, 1, ())):
+            return True
+    return False
+
+
+def _fold_consumers(prog, g):
+    body = g.body
+    consumers = [(b, blk, t) for b, blk, t in prog.call_sites(g) if t.callee is not None and b is body and
+                 t.callee.path.startswith("std::iter::Iterator::") and t.callee.path.rsplit("::", 1)[-1] not in ("map", "rev", "filter", "filter_map", "into_iter", "collect", "enumerate")]
+    folds = [(b, blk, t) for b, blk, t in consumers if t.callee.path in FULL_TRAVERSAL]
+    early = [(b, blk, t) for b, blk, t in consumers if t.callee.path.rsplit("::", 1)[-1] in EARLY]
+    return folds, early
+
+
 def check_find(cfg, w, rep, lf):
     prog = w.prog
     key = fn_key(lf)
     R = w.roles
-    body = lf.body
-    # the traversal
-    consumers = [(b, blk, t) for b, blk, t in prog.call_sites(lf) if t.callee is not None and b is body and
-                 t.callee.path.startswith("std::iter::Iterator::") and t.callee.path.rsplit("::", 1)[-1] not in ("map", "rev", "filter", "filter_map", "into_iter", "collect", "enumerate")]
-    folds = [(b, blk, t) for b, blk, t in consumers if t.callee.path in FULL_TRAVERSAL]
-    early = [(b, blk, t) for b, blk, t in consumers if t.callee.path.rsplit("::", 1)[-1] in EARLY]
+    from ..symval import walk
+    # the traversal sits in the lookup itself, or in ONE private helper that is handed the reader's records and the key
+    g, kidx, helper_call = lf, 1, None
+    folds, early = _fold_consumers(prog, lf)
+    if not folds and not early:
+        cands = []
+        for b_, blk_, t_, h in prog.local_calls(lf):
+            if b_ is not lf.body or h.outer.reachable or h.path in R.bucket_readers or h.path in R.bucket_path:
+                continue
+            args = [w.sym.of_operand(b_, a) for a in t_.args]
+            si = [i for i, a in enumerate(args) if _reader_stream_ok(w, lf, a)]
+            ki = [i for i, a in enumerate(args) if a == ("param", lf.path, 1, ())]
+            if len(si) == 1 and len(ki) == 1:
+                cands.append((h, si[0], ki[0], (b_, blk_, t_)))
+        if len(cands) == 1:
+            g, sidx, kidx, helper_call = cands[0]
+            folds, early = _fold_consumers(prog, g)
+    body = g.body
     if early:
         for b, blk, t in early:
             rep.violation("b-early:%s" % key, "lookup `%s` consumes the record stream with the early-terminating `%s`: a later record for the key would be ignored" % (
                 short(lf.path), t.callee.path.rsplit("::", 1)[-1]), loc=span_str(t.span), config=cfg, rule="b-full-traversal")
     if len(folds) != 1:
         rep.violation("b-idiom:%s" % key, "UNRECOGNISED-IDIOM: lookup `%s` does not fold over the whole record stream exactly once (%d fold-like consumers)" % (
-            short(lf.path), len(folds)), loc=body.loc(), config=cfg, rule="b-full-traversal")
+            short(lf.path), len(folds)), loc=lf.body.loc(), config=cfg, rule="b-full-traversal")
         return
     b, blk, t = folds[0]
-    for blk_, t_ in inplace_changes_of_records(w, body, set(R.bucket_readers)):
-        rep.violation("b-inplace:%s" % key,
-                      "lookup `%s` changes the record vector in place (`%s`) before folding over it: the most recent write is the last "
-                      "record in file order, which this no longer is" % (short(lf.path), t_.callee.path.rsplit("::", 1)[-1]),
-                      loc=span_str(t_.span), config=cfg, rule="b-full-traversal")
+    for fn_ in ({lf.path: lf, g.path: g}).values():
+        for blk_, t_ in inplace_changes_of_records(w, fn_.body, set(R.bucket_readers)):
+            rep.violation("b-inplace:%s" % key,
+                          "lookup `%s` changes the record vector in place (`%s`) before folding over it: the most recent write is the last "
+                          "record in file order, which this no longer is" % (short(lf.path), t_.callee.path.rsplit("::", 1)[-1]),
+                          loc=span_str(t_.span), config=cfg, rule="b-full-traversal")
     # iterator = into_iter of the validated record stream of BUCKET_PATH(cache, key)
     it = w.sym.of_operand(b, t.args[0])
-    ok_src = False
-    reader_call = None
-    from ..symval import walk
-    for st in walk(it):
-        if st[0] == "call" and st[1] in R.bucket_readers:
-            reader_call = st
-    if reader_call is not None and reader_call[2]:
-        bp = reader_call[2][0]
-        if bp[0] == "call" and bp[1] in R.bucket_path and bp[2] == (("param", lf.path, 0, ()), ("param", lf.path, 1, ())):
-            ok_src = True
+    if g is lf:
+        ok_src = _reader_stream_ok(w, lf, it)
+    else:
+        # in the helper: the iterator is its records parameter, untouched (the caller's argument was checked above);
+        # nothing else in the helper may touch that parameter in place
+        base = it
+        while base[0] == "call" and base[1].endswith("into_iter") and base[2]:
+            base = base[2][0]
+        ok_src = base == ("param", g.path, sidx, ())
+        for blk_, t_ in g.body.calls():
+            if t_.callee is not None and t_.args and t_ is not t:
+                a0 = w.sym.of_operand(g.body, t_.args[0])
+                if a0 == ("param", g.path, sidx, ()) and inplace_call(t_.callee.path):
+                    ok_src = False
     # nothing but identity adaptors between reader and fold
     adaptors = [st[1].rsplit("::", 1)[-1] for st in walk(it) if st[0] == "call" and st[1].startswith("std::iter::Iterator::")]
     if ok_src and not adaptors:
-        rep.ob(cfg, "b-stream", key, "`%s` folds over every validated record of bucket_path(cache, key) (key passed unchanged)" % short(lf.path))
+        rep.ob(cfg, "b-stream", key, "`%s` folds over every validated record of bucket_path(cache, key) (key passed unchanged)%s" % (
+            short(lf.path), " in its helper `%s`" % short(g.path) if g is not lf else ""))
     else:
         rep.violation("b-stream:%s" % key, "lookup `%s` does not fold over the full validated record stream of bucket_path(cache, key): %s" % (
             short(lf.path), term_str(it)[:140]), loc=span_str(t.span), config=cfg, rule="b-full-traversal")
@@ -136,7 +197,7 @@ def check_find(cfg, w, rep, lf):
                     return s and all(x.kind == "field" and x.info[0] in rec_types and x.info[1] == "key" and not x.path for x in s)
 
                 def is_lookup_key(s):
-                    return s and is_param(prog, s, lf, 1)
+                    return s and is_param(prog, s, g, kidx)
                 if (is_entry_key(a) and is_lookup_key(c)) or (is_entry_key(c) and is_lookup_key(a)):
                     return ("key_eq", {switch_target(term, 1): True, switch_target(term, 0): False})
                 return ("key_eq?", {switch_target(term, 1): "other-comparison:%s" % sorted(map(repr, a | c))[:2], switch_target(term, 0): False})
@@ -195,7 +256,13 @@ def check_find(cfg, w, rep, lf):
                           short(lf.path), sorted(map(str, extra))[:3], sorted(map(str, missing))[:3]),
                       loc=cl.loc(), config=cfg, rule="b-decision-table")
     # the result of the fold is what the lookup returns
-    ret = prog.resolve_lifted(body, 0, (("v", "Ok"), ("f", "0")), IDENT)
+    if g is lf:
+        ret = prog.resolve_lifted(body, 0, (("v", "Ok"), ("f", "0")), IDENT)
+    else:
+        # helper returns the fold's result; the lookup returns Ok(<helper's result>)
+        hret = prog.resolve_lifted(g.body, 0, (), IDENT)
+        lret = prog.resolve_lifted(lf.body, 0, (("v", "Ok"), ("f", "0")), IDENT)
+        ret = hret if (lret and all(x.kind == "call" and x.term is helper_call[2] for x in lret)) else lret
     if ret and all(x.kind == "call" and x.term is t for x in ret):
         rep.ob(cfg, "b-returns-fold", key, "`%s` returns the fold's result" % short(lf.path))
     else:
